@@ -16,6 +16,7 @@ ties of the sub-filter grid the sinc types can pick a neighbouring sub-filter (f
 import RubatoProofs.Fft.Routing
 import RubatoProofs.Async.FixedIn
 import RubatoProofs.Async.FixedOut
+import RubatoProofs.Async.Stream
 
 set_option linter.unusedSectionVars false
 set_option linter.unusedVariables false
@@ -94,5 +95,59 @@ theorem fixedOut_instants_chunking_independent {c : ℕ} (hc : 0 < c) (t last : 
     stepsOutLast ((t - t) / c) c t last = last + c * t := by
   rw [FixedOut.stepsOutLast_eq_advance hc]
   unfold FixedOut.advance; ring
+
+end Rubato.C05
+
+namespace Rubato.C05
+open Rubato Rubato.Stream
+
+/-! ### asynchronous types: the data-plane refinement (RubatoProofs/Async/Stream*.lean) -/
+
+/-- **stream specification.**  For any run of successful single-channel calls at constant ratio from a fresh resampler —
+any chunk sizes, any `set_chunk_size` schedule, inputs longer than needed — the `j`-th output frame overall is the kernel
+(generated Lagrange formula, or the blend of LOCAL interpolator values) applied to the concatenated input (extended by
+zeros to the left, and by ANY continuation `Y` to the right) at the instant `−L/2 + (j+1)/ratio`: a function of the
+concatenated input, the parameters and the ratio only. -/
+theorem async_output_is_stream_spec {kind : AKind} {r maxRel : ℚ} {deg : Degree} {sint : SincInterp}
+    {ip : Interp ℚ} {chunk : ℕ} {s0 s : AState ℚ ℚ} {X O : List ℚ}
+    (hinit : AState.init kind r maxRel deg sint ip chunk 1 = .ok s0)
+    (hc : kind.isFixedIn = false → 0 < chunk) (hev : kind = .sincOut → 2 ∣ ip.len)
+    (hloc : kind.isSinc = true → Local ip)
+    (hrun : Run s0 s X O) (Y : List ℚ) (j : ℕ) (hj : j < O.length) :
+    O.getD j 0 = specOf kind.isSinc deg sint ip (Xz (X ++ Y))
+      (-((Lof kind ip / 2 : ℕ) : ℚ) + ((j : ℚ) + 1) / r) :=
+  stream_spec_ext hinit hc hev hloc hrun Y j hj
+
+/-- **chunking / variant independence.**  Two runs of the same algorithm at the same ratio — fixed-input or fixed-output,
+any chunk sizes, any chunk-size schedules — whose consumed inputs are prefixes of one stream agree frame by frame on their
+common prefix: nothing is lost, duplicated or taken from stale storage at a chunk boundary. -/
+theorem async_chunking_and_variant_independent {kind1 kind2 : AKind} (hsame : kind1.isSinc = kind2.isSinc)
+    {r maxRel1 maxRel2 : ℚ} {deg : Degree} {sint : SincInterp} {ip : Interp ℚ}
+    {chunk1 chunk2 : ℕ} {s1 s2 t1 t2 : AState ℚ ℚ} {X1 X2 O1 O2 S : List ℚ}
+    (hinit1 : AState.init kind1 r maxRel1 deg sint ip chunk1 1 = .ok s1)
+    (hinit2 : AState.init kind2 r maxRel2 deg sint ip chunk2 1 = .ok s2)
+    (hc1 : kind1.isFixedIn = false → 0 < chunk1) (hc2 : kind2.isFixedIn = false → 0 < chunk2)
+    (hev : kind1 = .sincOut ∨ kind2 = .sincOut → 2 ∣ ip.len)
+    (hloc : kind1.isSinc = true → Local ip)
+    (hrun1 : Run s1 t1 X1 O1) (hrun2 : Run s2 t2 X2 O2)
+    (hp1 : X1 <+: S) (hp2 : X2 <+: S) (j : ℕ) (hj1 : j < O1.length) (hj2 : j < O2.length) :
+    O1.getD j 0 = O2.getD j 0 :=
+  chunking_independent hsame hinit1 hinit2 hc1 hc2 hev hloc hrun1 hrun2 hp1 hp2 j hj1 hj2
+
+/-- the internal buffer always holds exactly the last `2L + fill` frames of the concatenated input (zeros before the start),
+and `last_index + consumed = −L/2 + produced/ratio` -/
+theorem async_buffer_and_clock {kind : AKind} {r maxRel : ℚ} {deg : Degree} {sint : SincInterp}
+    {ip : Interp ℚ} {chunk : ℕ} {s0 s : AState ℚ ℚ} {X O : List ℚ}
+    (hinit : AState.init kind r maxRel deg sint ip chunk 1 = .ok s0)
+    (hc : kind.isFixedIn = false → 0 < chunk) (hev : kind = .sincOut → 2 ∣ ip.len)
+    (hloc : kind.isSinc = true → Local ip) (hrun : Run s0 s X O) :
+    s.lastIndex + (X.length : ℚ) = -((Lof kind ip / 2 : ℕ) : ℚ) + (O.length : ℚ) / r ∧ BufOK s X :=
+  stream_clock hinit hc hev hloc hrun
+
+/-- the crate's scalar kernel (as modelled, bit for bit) satisfies the locality hypothesis -/
+theorem scalar_kernel_is_local (t : Array (Array ℚ)) (len nbr : ℕ)
+    (h : ∀ sub : ℕ, (t.getD sub #[]).size ≤ len) :
+    Local ⟨len, nbr, scalarDot t⟩ :=
+  scalarDot_local t len nbr h
 
 end Rubato.C05
